@@ -81,10 +81,10 @@ def object_histories(ctx, src, case):
     mode = ctx.rng.randrange(4) if len(lines) >= 2 else ctx.rng.randrange(2)
     try:
         if mode == 0:
-            L = lua.Lua.from_lines([src], version=8)
+            L = lua.Lua.from_lines([src], version=ambient.VERSION[0])
             ctx.feature('object_one_chunk')
         elif mode == 1:
-            L = lua.Lua.from_lines(lines, version=8)
+            L = lua.Lua.from_lines(lines, version=ambient.VERSION[0])
             ctx.feature('object_line_by_line')
         else:
             # cut between two lines where the reference lexer is between tokens (not inside a long string/comment)
@@ -100,7 +100,7 @@ def object_histories(ctx, src, case):
             if cut is None:
                 return True
             try:
-                L = lua.Lua.from_lines(lines[:cut], version=8)
+                L = lua.Lua.from_lines(lines[:cut], version=ambient.VERSION[0])
             except Exception:
                 # the first part alone is not a program (an open block): not this history's subject
                 ctx.feature('object_two_steps_first_part_incomplete')
@@ -197,7 +197,7 @@ def check_source(ctx, src, tag, cli_dir=None):
         regions, _ = carts.random_regions(ctx.rng, 'sparse')
         p1 = os.path.join(cli_dir, ambient.BASE[0] + '.p8')
         with open(p1, 'wb') as fh:
-            fh.write(rc.write_p8(regions, src, version=8))
+            fh.write(rc.write_p8(regions, src, version=ambient.VERSION[0]))
         want = src if src.endswith(b'\n') else src + b'\n'
         try:
             rcode = tool.main([ambient.vflag(), 'writep8', p1])
